@@ -6,7 +6,8 @@
 //! conflict check `TransactionRebase::check_txn` against every transaction in between, rebase, `build_manifest`).
 //!
 //! ```text
-//! create f=<nat> <rows>          WriteMode::Create, max_rows_per_file = f (ceil(n/f) fragments); every handle opens v1
+//! create f=<nat> [s=<0|1>] <rows> WriteMode::Create, max_rows_per_file = f (ceil(n/f) fragments), s = enable_stable_row_ids
+//!                                (default 0); every handle opens v1
 //! open <h>                       handle h (0..2) := latest version
 //! <h> append <rows>              one more fragment; keys must never have been used in the case
 //! <h> delete <keys>              DeleteBuilder "c0 IN (keys)", conflict_retries(0)
@@ -82,7 +83,7 @@ enum Act {
 
 #[derive(Clone, Debug)]
 enum Op {
-    Create { f: usize, rows: Vec<Row> },
+    Create { f: usize, s: bool, rows: Vec<Row> },
     Open(usize),
     Do(usize, Act),
 }
@@ -119,7 +120,19 @@ fn parse_op(line: &str) -> Option<Op> {
             if f == 0 {
                 return None;
             }
-            Some(Op::Create { f, rows: rows_w(rows, &[3])? })
+            Some(Op::Create { f, s: false, rows: rows_w(rows, &[3])? })
+        }
+        ["create", f, sr, rows] => {
+            let f = parse_nat(f.strip_prefix("f=")?)? as usize;
+            if f == 0 {
+                return None;
+            }
+            let s = match sr.strip_prefix("s=")? {
+                "0" => false,
+                "1" => true,
+                _ => return None,
+            };
+            Some(Op::Create { f, s, rows: rows_w(rows, &[3])? })
         }
         ["open", h] => {
             let h = parse_nat(h)? as usize;
@@ -260,6 +273,7 @@ struct Ghost {
 
 struct Obs {
     version: u64,
+    frag_ids: BTreeSet<u64>,
     frags: String,
     idx: String,
     scan: Vec<Row>,
@@ -308,6 +322,7 @@ impl C24 {
         let scan = kit.scan(ds, &Self::spec(), &ScanOpts::ordered())?;
         Ok(Obs {
             version: ds.manifest().version,
+            frag_ids: ds.get_fragments().iter().map(|f| f.id() as u64).collect(),
             frags: if fr.is_empty() { "-".into() } else { fr.join(",") },
             idx: if names.is_empty() { "-".into() } else { names.join("+") },
             scan,
@@ -549,7 +564,7 @@ impl Prop for C24 {
 
     fn budget(&self, tier: Tier) -> usize {
         match tier {
-            Tier::Quick => 330,
+            Tier::Quick => 340,
             Tier::Thorough => 5000,
             Tier::Search => 2500,
         }
@@ -571,7 +586,57 @@ impl Prop for C24 {
         for c in rows.chunks(f) {
             sim.add_frag(c.iter().map(|r| r[0].unwrap()).collect());
         }
-        lines.push(format!("create f={f} {}", show_rows(&rows)));
+        // stable row ids: a block of targeted shapes after the exhaustive pairs, and 1/5 of the random histories
+        let targeted = idx >= 2 * nk * nk && idx < 2 * nk * nk + 50;
+        let stable = targeted || (idx >= 2 * nk * nk + 50 && rng.chance(1, 5));
+        if stable {
+            lines.push(format!("create f={f} s=1 {}", show_rows(&rows)));
+        } else {
+            lines.push(format!("create f={f} {}", show_rows(&rows)));
+        }
+        if targeted {
+            // index on x (and sometimes y); an append the index does not cover; an update of the OTHER column that moves
+            // every row of the appended fragment and some rows of a covered one (build_manifest, Update arm:
+            // register_pure_rewrite_rows_update_frags_in_indices), through a fresh or a stale handle
+            push(&mut lines, 0, &Act::Index(1));
+            if rng.chance(1, 3) {
+                push(&mut lines, 0, &Act::Index(2));
+            }
+            lines.push("open 1".into());
+            let a = sim.gen_act(rng, "append");
+            let app_keys: Vec<i64> = match &a {
+                Act::Append(rows) => rows.iter().map(|r| r[0].unwrap()).collect(),
+                _ => vec![],
+            };
+            push(&mut lines, 0, &a);
+            if rng.chance(1, 4) {
+                push(&mut lines, 0, &Act::Optimize);
+            }
+            let mut ks = app_keys.clone();
+            if rng.chance(1, 6) {
+                ks.pop();
+            }
+            let old: Vec<i64> = sim.live.iter().copied().filter(|k| !app_keys.contains(k)).collect();
+            for _ in 0..rng.usize(3) {
+                let k = *rng.pick(&old);
+                if !ks.contains(&k) {
+                    ks.push(k);
+                }
+            }
+            let col = if rng.chance(3, 4) { 2 } else { 1 };
+            let h = if rng.chance(2, 3) { 0 } else { 1 };
+            let moved: Vec<i64> = ks.clone();
+            sim.frags.insert(sim.next_frag, (moved, false));
+            sim.next_frag += 1;
+            push(&mut lines, h, &Act::Upd(col, ks, if col == 2 { 900 } else { 90 }));
+            lines.push("open 0".into());
+            for _ in 0..rng.usize(3) {
+                let kind = *rng.pick(&["updy", "updx", "delete", "optimize", "append", "index_y"]);
+                let a = sim.gen_act(rng, kind);
+                push(&mut lines, if rng.chance(1, 4) { 1 } else { 0 }, &a);
+            }
+            return lines;
+        }
         if idx < 2 * nk * nk {
             // exhaustive: every ordered pair of op kinds built at the same version, on a table with / without an index on x
             let with_index = idx >= nk * nk;
@@ -623,6 +688,8 @@ impl Prop for C24 {
                     }
                 }
             };
+            // column rewrites in place (mix, repl) are exercised on tables without stable row ids
+            let kind = if stable && (kind == "mix" || kind == "repl") { if rng.chance(1, 2) { "updy" } else { "append" } } else { kind };
             let a = sim.gen_act(rng, kind);
             push(&mut lines, h, &a);
         }
@@ -654,6 +721,8 @@ impl Prop for C24 {
         // ghost of every index ever committed, by uuid (a stale optimize_indices may merge an index that has been replaced since)
         let mut ghosts: BTreeMap<String, Ghost> = BTreeMap::new();
         let mut seen_version = 0u64;
+        let mut stable = false;
+        let mut prev_frags: BTreeSet<u64> = BTreeSet::new();
         let mut obs_before: BTreeMap<String, (Vec<i32>, BTreeSet<u64>, String)> = BTreeMap::new();
         let mut n_stale_commits = 0usize;
         let mut n_conflicts = 0usize;
@@ -667,7 +736,7 @@ impl Prop for C24 {
             };
             // ---- create / open
             let (h, act) = match op {
-                Op::Create { f, rows } => {
+                Op::Create { f, s, rows } => {
                     let keys: Vec<Cell> = rows.iter().map(|r| r[0]).collect();
                     if anchor.is_some() {
                         res.outputs.push("err no_table".into());
@@ -677,7 +746,8 @@ impl Prop for C24 {
                         res.outputs.push("err keys".into());
                         continue;
                     }
-                    let knobs = Knobs { max_rows_per_file: Some(f), ..Default::default() };
+                    let knobs = Knobs { max_rows_per_file: Some(f), stable_row_ids: s, ..Default::default() };
+                    stable = s;
                     match self.kit.create(&uri, &Self::spec(), &[rows.clone()], &knobs) {
                         Ok(d) => {
                             for r in &rows {
@@ -694,13 +764,16 @@ impl Prop for C24 {
                             seen_version = d.manifest().version;
                             res.tags.push("op:create".into());
                             match self.observe(&d) {
-                                Ok(o) => res.outputs.push(format!(
+                                Ok(o) => {
+                                    prev_frags = o.frag_ids.clone();
+                                    res.outputs.push(format!(
                                     "ok v={} txn=create frags={} idx={} scan={}",
                                     o.version,
                                     o.frags,
                                     o.idx,
                                     show_rows(&o.scan)
-                                )),
+                                    ))
+                                }
                                 Err(e) => res.outputs.push(format!("err observe {}", e.kind.as_str())),
                             }
                             anchor = Some(d);
@@ -882,6 +955,36 @@ impl Prop for C24 {
                             }
                         }
                     }
+                    Operation::Update {
+                        updated_fragments,
+                        removed_fragment_ids,
+                        fields_for_preserving_frag_bitmap,
+                        update_mode: Some(UpdateMode::RewriteRows),
+                        ..
+                    } if stable => {
+                        // stable row ids: the index entries follow the moved rows into the new fragments
+                        let originals: BTreeSet<u64> =
+                            updated_fragments.iter().map(|f| f.id).chain(removed_fragment_ids.iter().copied()).collect();
+                        let news: Vec<u64> = obs.frag_ids.difference(&prev_frags).copied().collect();
+                        for (_, (_, bm, uuid)) in obs.indices.iter() {
+                            if let Some(g) = ghosts.get_mut(uuid) {
+                                let key = originals.iter().filter_map(|f| g.stale.get(f).copied()).next();
+                                let was_pruned = originals.iter().any(|f| g.pruned.contains(f));
+                                // an index on an assigned column keeps the OLD values of the moved rows under their row ids
+                                // (harmless while the new fragment is outside its bitmap; optimize_indices merges them back in)
+                                let assigned = g.fields.iter().any(|f| fields_for_preserving_frag_bitmap.contains(&(*f as u32)));
+                                for nf in &news {
+                                    if bm.contains(nf) {
+                                        if let Some(k) = key {
+                                            g.stale.insert(*nf, k);
+                                        }
+                                    } else if key.is_some() || was_pruned || assigned {
+                                        g.pruned.insert(*nf);
+                                    }
+                                }
+                            }
+                        }
+                    }
                     Operation::DataReplacement { replacements } => {
                         for DataReplacementGroup(f, file) in replacements {
                             for (_, (_, bm, uuid)) in obs_before.iter() {
@@ -966,6 +1069,7 @@ impl Prop for C24 {
             }
             seen_version = obs.version;
             obs_before = obs.indices.clone();
+            prev_frags = obs.frag_ids.clone();
             res.outputs.push(format!(
                 "ok v={} txn={} frags={} idx={} scan={}",
                 obs.version,
